@@ -586,7 +586,7 @@ def main(ctx: Ctx) -> None:
         what = (f"checkFunc rejects {f['name']} ({r['key']}): {f['bad'].get('micro_op')} with value {f['bad'].get('value')} "
                 f"at block {f['bad']['where'][0]} ({f['bad'].get('ir_op')} {f['bad'].get('ir_function') or ''}); "
                 f"{len(members)} function(s) in this class")
-        if obs["class"] in KNOWN_DRIVERS:
+        if obs["class"] in KNOWN_DRIVERS and ctx.match_known(obs) is not None:
             dyn = run_known_recipe(known_build, obs["class"])
             detail["dynamic"] = dyn
             obs2 = dict(obs, dynamic=dyn["result"])
